@@ -41,6 +41,10 @@ func findTransactionFolds(content string) []protocol.FoldingRange {
 
 		startLine := uint32(tx.Range.Start.Line - 1)
 		endLine := uint32(tx.Range.End.Line - 1)
+		// the range ends where the next token starts: at column 1 that is the line after the transaction
+		if tx.Range.End.Column == 1 && endLine > startLine {
+			endLine--
+		}
 
 		if endLine > startLine {
 			ranges = append(ranges, protocol.FoldingRange{
